@@ -117,6 +117,10 @@ class NumericData(Data, ABC):
             values = np.ravel(values)
             warn("Input 'values' converted to a 1D array.")
 
+        if values.dtype == np.float16:
+            # half precision cannot hold the integer no-data value
+            values = values.astype(np.float32)
+
         # change nan values to nan_value
         values[np.isnan(values)] = self.nan_value
 
